@@ -90,10 +90,11 @@ CHECKS = {
    cat="proof",
    text="Lean schedule/environment-freshness model of dmrg_: for every N>=1, every sequence of methods over the sweeps, precompute on/off, canonical or not: every Heff/measure event "
         "reads only present and FRESH environments (dmrg_reads_fresh), exit state (pC none, edge environments fresh), the last event is the measure giving the reported energy, exit "
-        "gauge. Tie: event traces of real dmrg_ runs (run-time wrapping, no source hooks) vs the model trace and the stamp checker; oracles on real results vs dense references: "
+        "gauge; energy_ge_lambda_min (C09Var, Mathlib Rayleigh quotient): for EVERY Hermitian H on a finite-dimensional sector over R or C the lowest eigenvalue exists and bounds the "
+        "energy re<Hx,x>/|x|^2 of every non-zero state from below; eigenstate_energy: the energy of an eigenvector is its eigenvalue with zero residual. Tie: event traces of real dmrg_ runs (run-time wrapping, no source hooks) vs the model trace and the stamp checker; oracles on real results vs dense references: "
         "normalised/canonical/sector, E == <psi|H|psi>, E >= lambda_min(sector), monotone sweeps, eigenstate at convergence, projectors, sums of MPOs, precompute on/off.",
-   note=TB + "Variational bound, monotonicity, convergence and penalty behaviour are numerical facts checked by oracles, not proved; eigs is a validated contract. Known finding: '2site' never renormalises.",
-   technique="Lean 4 proof of schedule/freshness logic + trace correspondence + dense oracles", design="§5 C09"),
+   note=TB + "The variational bound is proved for the abstract sector (exact arithmetic); that the reported number IS that Rayleigh quotient, monotonicity, convergence and penalty behaviour are checked by oracles on the real code, not proved; eigs is a validated contract. Known finding: '2site' never renormalises.",
+   technique="Lean 4 proof of schedule/freshness logic and of the variational bound + trace correspondence + dense oracles", design="§5 C09"),
  "C10": dict(
    cat="proof",
    text="13 Lean theorems: half sweeps of '1site', '2site' and '12site' (under ANY enlarge_bond oracle) are overlap chains with backward updates exactly on the intersections, "
